@@ -14,6 +14,7 @@ DECIDED = ("R1 a held message's status can become deliverable only in Sent::deli
 NOT_DECIDED = ("independence of other links as behaviour, the combination with one-way partitions (documented unsupported), "
                "delivery instants.")
 DECIDED += "; R10 exhaustive scans: for_pairs, Link::hold / release / take_due / deliver_messages, LinkIter::deliver_all and Topology::deliver_messages visit every element (no early exit, no truncating adaptor)"
+DECIDED += "; R11 every container of in-flight messages is covered by hold and by the links iterator; R12 no message type carries a live channel endpoint (recorded finding D10: the SYN-ACK one-shot)"
 ASSUMPTIONS = ["Link::hold always marks both directions, so 'some direction Healthy' implies 'not held'"]
 
 SENT = "turmoil::top::Link::sent"
